@@ -185,7 +185,7 @@ def ray_integral_oracle(path, weight, beta=None):
         for p1, p2 in zip(pts[:-1], pts[1:]):
             L = float(np.linalg.norm(p2 - p1))
             if p1[2] == p2[2]:
-                tot += L * float(weight(path.ice, p1[2]))
+                tot += L * float(weight(path.ice, 0.5 * (path.ice.valid_range[0] + path.ice.valid_range[1])))
             else:
                 v, _ = scipy.integrate.quad(lambda z: float(weight(path.ice, z)), min(p1[2], p2[2]), max(p1[2], p2[2]), limit=200)
                 tot += v * L / abs(p2[2] - p1[2])
@@ -516,6 +516,11 @@ def fixed_cases():
         rt.max_reflections = 2
         out.append(("uniform", {"tracer": "UniformRayTracer", "from": a, "to": b, "n": 1.5, "range": [-1000.0, 0.0], "above": 1.0, "below": below,
                                 "max_reflections": 2}, rt))
+    # endpoints exactly ON the bounds of the valid range (the ice's own index applies there), indices above / below differ
+    for a, b in (([0.0, 0.0, -1000.0], [300.0, 40.0, -200.0]), ([0.0, 0.0, -350.0], [120.0, -60.0, 0.0]), ([0.0, 0.0, -1000.0], [500.0, 0.0, 0.0])):
+        rt = UniformRayTracer(a, b, UniformIce(1.5, valid_range=(-1000.0, 0.0), index_above=1.0, index_below=2.7))
+        out.append(("uniform", {"tracer": "UniformRayTracer", "from": a, "to": b, "n": 1.5, "range": [-1000.0, 0.0], "above": 1.0, "below": 2.7,
+                                "max_reflections": 0}, rt))
     li = LayeredIce([UniformIce(1.4, valid_range=(-200.0, 0.0)), UniformIce(1.78, valid_range=(-1000.0, -200.0))], index_above=1.0, index_below=None)
     out.append(("layered", {"tracer": "LayeredRayTracer", "from": [0.0, 0.0, -600.0], "to": [200.0, 50.0, -100.0], "bounds": [0.0, -200.0, -1000.0],
                             "indices": [1.4, 1.78], "design_finding": "F12b"}, LayeredRayTracer([0.0, 0.0, -600.0], [200.0, 50.0, -100.0], li)))
@@ -921,6 +926,20 @@ def probes(ctx, cases_in):
                          {"kind": "attenuation", **base})
             if not (0 < a0[0] <= 1 and a0[0] >= a0[1] * (1 - 1e-12)):
                 ctx.fail("attenuation-dc:%s:%d" % (tag, si), "%s attenuation(0)=%r" % (kind, a0[0]), {"kind": "attenuation", **base})
+            # towards f = 0: for the ice models whose attenuation length is exp(-(a + b ln f)) with b > 0 (AntarcticIce,
+            # UniformIce, and layers of them) L -> infinity, so the DC component is not attenuated at all: factor exactly 1,
+            # and the factor can only fall from there as f grows (also for very small f)
+            with np.errstate(all="ignore"):
+                tiny = np.asarray(path.attenuation(np.array([0.0, 1e-6, 1e-3, 1.0, 1e3, 1e5])), float)
+            ices = [q.ice for q in path.paths] if hasattr(path, "paths") else [path.ice]
+            if all(type(i_).__name__ in ("AntarcticIce", "UniformIce") for i_ in ices):
+                stats["dc_exact"] = stats.get("dc_exact", 0) + 1
+                if not tiny[0] == 1.0:
+                    ctx.fail("attenuation-dc-not-1:%s:%d" % (tag, si), "%s attenuation(f = 0) = %r, but the attenuation length diverges as f -> 0, so the zero-frequency component must pass unchanged (factor exactly 1)" % (kind, float(tiny[0])),
+                             {"kind": "attenuation", **base, "f": 0.0})
+            if not (np.all(tiny[1:] <= tiny[:-1] * (1 + 1e-12)) and np.all(tiny > 0) and np.all(tiny <= 1)):
+                ctx.fail("attenuation-tiny-f:%s:%d" % (tag, si), "%s attenuation at f = 0, 1e-6, 1e-3, 1, 1e3, 1e5 Hz is %s: not in (0,1] / not non-increasing in f" % (kind, tiny.tolist()),
+                         {"kind": "attenuation", **base})
             # |fresnel| <= 1
             stats["fresnel"] += 1
             mx = max(abs(fres[0]), abs(fres[1]))
